@@ -505,8 +505,9 @@ func (p *Projection) internRow() Key {
 		}
 	}
 
-	// Update observation orders.
-	for _, field := range p.Fields() {
+	// Update observation orders. This includes the sub-fields of group
+	// fields like .config, each of which has its own observation order.
+	for _, field := range p.FlattenedFields() {
 		if field.order == nil {
 			// Not tracking observation order for this field.
 			continue
